@@ -1,13 +1,14 @@
 (* C10 -- a transaction built from a descriptor carries exactly the described values.
-   Statements only; proofs are in Sym/DescriptorProofs.v.  Left-hand sides: Sym/Descriptor.v, the model of
+   Statements only; proofs are in Sym/DescriptorProofs.v, Sym/DescriptorNestedProofs.v (nested dictionaries / lists, fuel) and
+   Sym/DescriptorSortProofs.v (sort() at every depth), Sym/DescriptorCreateProofs.v (the stages of create composed).  Left-hand sides: Sym/Descriptor.v, the model of
    TransactionDescriptorProcessor / RuleBasedTransactionFactory / symbol+nem TransactionFactory.create(_embedded) whose tables
    (TYPE_HINTS, autodetected classes, _build_rules calls, create_by_name mappings), key names, prefixes and the `_computed` suffix are
    regenerated from /repo (Gen/DescriptorOps.v, Gen/DescriptorRulesSc.v, Gen/DescriptorRulesNc.v) and whose objects are the layout
    interpreter's values over the regenerated schemas.  Right-hand sides: fixed text.
    Level: proof, partial -- reflection-based rule discovery (dir(module), inspect) is represented by the regenerated tables. *)
 From Symv Require Import Base.Bytes Base.PyOps Cats.LayoutRender Cats.LayoutInstProofs Sym.Keccak Sym.Ids Sym.IdsProofs Sym.Address
-  Sym.Descriptor Sym.DescriptorProofs.
-From Coq Require Import Sorted.
+  Sym.Descriptor Sym.DescriptorProofs Sym.DescriptorNestedProofs Sym.DescriptorSortProofs Sym.DescriptorCreateProofs.
+From Coq Require Import Sorted Permutation.
 Open Scope string_scope.
 Open Scope Z_scope.
 
@@ -35,7 +36,9 @@ Proof. repeat split; reflexivity. Qed.
    FULL STATEMENT (not proved as one theorem): for every descriptor with distinct keys, `create N emb autosort ident d = Ok v` implies that
    v is an object of the class create_by_name gives for d's type, each member named by d holds the coerced value of its entry
    (lists appended to the constructor's list, strs encoded as UTF-8), permuted by the stable key sort if autosort and with `id` replaced by
-   the generated id for the two artifact types, every other member holds the constructor default, `network` holds ident. *)
+   the generated id for the two artifact types, every other member holds the constructor default, `network` holds ident.
+   Here the coerced value of an entry is `lookup_value` of it, whatever that is; create_holds_values_nested_partial below says what it
+   is, recursively through struct and array rules. *)
 Theorem create_holds_values_partial : forall N emb ident d v, NoDup (map fst d) -> create_core N emb ident d = Ok v ->
   let d1 := dict_set d (n_network_key N) (DInt ident) in
   exists s name cls e0 e',
@@ -286,3 +289,323 @@ Proof.
   split; [vm_compute; reflexivity|]. split; [discriminate|]. vm_compute. repeat split; exact I.
 Qed.
 Print Assumptions create_premises_nonvacuous.
+
+(* ================= nested descriptors: dictionaries under struct rules, lists under array rules, to any depth ================= *)
+
+(* ---- the described value ---- *)
+(* `described N r d x` (Sym/DescriptorNestedProofs.v) is the specification of what rule r makes of the descriptor value d: the coercion
+   of the rule kind at a leaf; element by element for a list under an array rule; for a dictionary under a struct rule a fresh object of
+   the rule's class in which every given key names a settable, non-computed member holding the described value of its entry (through the
+   member's own rule, then the type converter; a list extends the constructor's list) and every member not given holds its default.
+   For a descriptor tree whose dictionaries have distinct keys at every level, the parsing rules yield exactly that, for every amount
+   of fuel that lets them finish. *)
+Theorem nested_values_described : forall N fuel r d x, nodup_keys d -> parse N fuel r d = Ok x -> described N r d x.
+Proof. exact parse_described. Qed.
+Print Assumptions nested_values_described.
+
+(* ---- create_holds_values, nested ---- *)
+(* PARTIAL in the same sense as create_holds_values_partial (stated for create_core, the object before sort() and the id / message
+   post-processing, which autosort_every_depth, post_processing_touches_only and ids_filled_namespace / ids_filled_mosaic characterise;
+   create_holds_values_composed_partial below composes them).  What is new: each given member holds the DESCRIBED value of its entry
+   -- recursively through nested dictionaries and lists -- its key is not a computed one, and the member exists in the constructed object. *)
+Theorem create_holds_values_nested_partial : forall N emb ident d v,
+  NoDup (map fst d) -> (forall k dv, In (k, dv) d -> nodup_keys dv) -> create_core N emb ident d = Ok v ->
+  let d1 := dict_set d (n_network_key N) (DInt ident) in
+  exists s name cls e0 e',
+    assoc "type" d1 = Some (DStr s) /\ In (name, cls) (n_names N emb) /\ str_is name s = true /\
+    new_instance N cls = Ok (VStruct cls e0) /\ v = VStruct cls e' /\ map fst e' = map fst e0 /\
+    (forall k dv, In (k, dv) d1 -> k <> "type" ->
+       exists f x old, member_of N cls k = Some f /\ ends_with k "_computed" = false /\ described_entry N cls k dv x /\
+                       assoc (f_name f) e0 = Some old /\ vget v (f_name f) = Some (encode_str (stored x old))) /\
+    (forall n, (forall k dv f, In (k, dv) d1 -> k <> "type" -> member_of N cls k = Some f -> f_name f <> n) ->
+       vget v n = option_map encode_str (assoc n e0)).
+Proof. exact create_core_holds_nested. Qed.
+Print Assumptions create_holds_values_nested_partial.
+
+(* ---- create_rejects, nested ---- *)
+(* `bad_value N r d`: d has a defect somewhere inside -- a leaf its rule's coercion refuses (out-of-range number, unknown enum / flag
+   name, foreign enum value / flag bits, hex or byte string of the wrong length), a non-list under an array rule, a non-dictionary under a
+   struct rule, or in a dictionary at any depth a key that names no settable member, a computed member, or an entry whose value is bad.
+   Such a value is never parsed, whatever the fuel: the error is not swallowed by the enclosing list or dictionary. *)
+Theorem nested_defect_rejected : forall N r d, bad_value N r d -> forall fuel x, parse N fuel r d <> Ok x.
+Proof. exact bad_value_rejected. Qed.
+Print Assumptions nested_defect_rejected.
+
+(* whatever the reason of the failure: if what stands at some position inside a descriptor value can never be parsed under the rule that
+   applies there, the whole value cannot be parsed *)
+Theorem nested_failure_propagates : forall N r d r' d', inside N r d r' d' ->
+  (forall fuel y, parse N fuel r' d' <> Ok y) -> forall fuel x, parse N fuel r d <> Ok x.
+Proof. exact failure_inside_propagates. Qed.
+Print Assumptions nested_failure_propagates.
+
+(* no object is created from a descriptor one of whose entries is bad at the top (create_rejects) or at any depth *)
+Theorem create_rejects_nested : forall N emb autosort ident d,
+  let d1 := dict_set d (n_network_key N) (DInt ident) in
+  (exists s cls k dv, assoc "type" d1 = Some (DStr s) /\ class_of_type N emb (DStr s) = Ok cls /\ In (k, dv) d1 /\ k <> "type" /\
+     (bad_entry N cls k dv \/ exists r, rule_for N cls k = Some r /\ bad_value N r dv)) ->
+  forall v, create N emb autosort ident d <> Ok v.
+Proof. exact DescriptorNestedProofs.create_rejects_nested. Qed.
+Print Assumptions create_rejects_nested.
+
+Theorem create_fails_on_failure_inside : forall N emb autosort ident d,
+  let d1 := dict_set d (n_network_key N) (DInt ident) in
+  forall s cls k dv r r' d', assoc "type" d1 = Some (DStr s) -> class_of_type N emb (DStr s) = Ok cls -> In (k, dv) d1 -> k <> "type" ->
+    rule_for N cls k = Some r -> inside N r dv r' d' -> (forall fuel y, parse N fuel r' d' <> Ok y) ->
+  forall v, create N emb autosort ident d <> Ok v.
+Proof. exact DescriptorNestedProofs.create_fails_on_failure_inside. Qed.
+Print Assumptions create_fails_on_failure_inside.
+
+(* ---- fuel ---- *)
+(* the parsing rules recurse on fuel (parse_fuel = 24 in create).  Any two amounts above the depth of the descriptor tree give the same
+   outcome -- value, rejection or crash -- so the cut-off never decides the result of a descriptor less than parse_fuel deep *)
+Theorem parse_fuel_sufficient : forall N k1 k2 r d, (ddepth d < k1)%nat -> (ddepth d < k2)%nat -> parse N k1 r d = parse N k2 r d.
+Proof. exact parse_fuel_irrelevant. Qed.
+Print Assumptions parse_fuel_sufficient.
+
+(* create_core_fuel N k is create_core with k in the place of parse_fuel (create_core = create_core_fuel parse_fuel by reflexivity) *)
+Theorem create_fuel_sufficient : forall N emb ident d k,
+  (forall key dv, In (key, dv) d -> (ddepth dv < parse_fuel)%nat) -> (parse_fuel <= k)%nat ->
+  create_core_fuel N k emb ident d = create_core N emb ident d.
+Proof. exact DescriptorNestedProofs.create_fuel_sufficient. Qed.
+Print Assumptions create_fuel_sufficient.
+
+(* and for a rule table none of whose rules nests parse_fuel struct / array levels, more fuel changes nothing for ANY descriptor *)
+Theorem create_fuel_sufficient_for_tables : forall N emb ident d k,
+  rules_fit N parse_fuel = true -> (parse_fuel <= k)%nat -> create_core_fuel N k emb ident d = create_core N emb ident d.
+Proof. exact DescriptorNestedProofs.create_fuel_sufficient_for_tables. Qed.
+Print Assumptions create_fuel_sufficient_for_tables.
+
+(* per-run obligation on the regenerated tables: the premise holds for both shipped networks *)
+Example shipped_rule_tables_fit_the_fuel : rules_fit sc_cfg parse_fuel = true /\ rules_fit nc_cfg parse_fuel = true.
+Proof. vm_compute. split; reflexivity. Qed.
+
+(* the other two fuelled stages of create: sort() recurses on the nesting of the object (fuel type_fuel_d = 24), with the same
+   insensitivity above the object's depth; the constructors recurse on the schema's type nesting only, and no class of either shipped
+   schema runs out of fuel (per-run obligation on the regenerated schemas) *)
+Theorem sort_fuel_sufficient : forall N k1 k2 v, (vdepth v < k1)%nat -> (vdepth v < k2)%nat -> sort_value N k1 v = sort_value N k2 v.
+Proof. exact sort_fuel_irrelevant. Qed.
+Print Assumptions sort_fuel_sufficient.
+
+Example shipped_constructors_within_fuel : constructors_within_fuel sc_cfg = true /\ constructors_within_fuel nc_cfg = true.
+Proof. vm_compute. split; reflexivity. Qed.
+
+(* ---- autosort at every depth ---- *)
+(* `visits N v v' w w'`: w is v or an object below it that sort() of v descends into (a struct-typed member whose condition holds), w'
+   is what stands at the same place in v'.  With automatic sorting on, every such object keeps its class and member names, each of
+   its keyed arrays is the stable key sort of what it held (keyed_sorted: a permutation of the given elements, non-descending under the
+   declared comparer when the keys have one shape, strictly ascending when they are moreover distinct), and every member that is
+   neither a keyed array nor a visited object is left as it was.  v' is `extend` of v1 (post_processing_touches_only, ids_filled_namespace, ids_filled_mosaic). *)
+Theorem autosort_every_depth : forall N emb ident d v', create N emb true ident d = Ok v' ->
+  exists v0 v1, create_core N emb ident d = Ok v0 /\ extend N ident v1 = Ok v' /\
+  forall w w', visits N v0 v1 w w' ->
+  exists cls s e e', w = VStruct cls e /\ w' = VStruct cls e' /\ lookup_struct (n_tm N) cls = Some s /\ map fst e' = map fst e /\
+    (forall n a l, keyed_member s n a -> assoc n e = Some (VArr l) -> exists l', assoc n e' = Some (VArr l') /\ keyed_sorted N a l l') /\
+    (forall n x, (forall a, ~ keyed_member s n a) -> ~ visited_member N w s n -> assoc n e = Some x -> assoc n e' = Some x).
+Proof. exact DescriptorSortProofs.autosort_every_depth. Qed.
+Print Assumptions autosort_every_depth.
+
+(* keyed_sorted, spelled out (it is a definition of Sym/DescriptorSortProofs.v) *)
+Example keyed_sorted_means : forall N a l l', keyed_sorted N a l l' <->
+  exists ks, keys_of_values (n_tm N) a l = Ok ks /\
+    l' = map snd (sort_pairs key_lt (combine ks l)) /\ Permutation l' l /\
+    (shape_ok ks -> Sorted (fun p q => key_lt_spec (fst q) (fst p) = false) (sort_pairs key_lt (combine ks l))) /\
+    (shape_ok ks -> NoDup ks -> StronglySorted (fun p q => key_lt_spec (fst p) (fst q) = true) (sort_pairs key_lt (combine ks l))).
+Proof. intros. reflexivity. Qed.
+
+(* ---- create_holds_values through all stages of create ---- *)
+(* `arranged N autosort v0 st n y0 y` (Sym/DescriptorCreateProofs.v): with autosort, y is y0 brought into canonical order if member n is
+   a keyed array (keyed_sorted), y is sort() of y0 if n is an object sort() visits, y = y0 otherwise; without autosort, y = y0.
+   `post_member N` is "id" (symbol) / "message" (nem).
+   PARTIAL: says nothing about the one member the post-processing writes -- `id` on symbol, which ids_filled_namespace /
+   ids_filled_mosaic determine for the two artifact types, and `message` on nem (the transfer message is str-encoded one level down).
+   Everything else of the FULL STATEMENT above create_holds_values_partial is here, for the object `create` returns: its class is the
+   one create_by_name gives for the descriptor's type, it has exactly the constructor's member names, each member named by the
+   descriptor (keys distinct at every level) holds the described value of its entry, recursively through nested dictionaries and lists,
+   UTF-8 encoded if it is a str, and arranged by sort(); every member not named holds the constructor default, likewise. *)
+Theorem create_holds_values_composed_partial : forall N emb autosort ident d v',
+  NoDup (map fst d) -> (forall k dv, In (k, dv) d -> nodup_keys dv) -> create N emb autosort ident d = Ok v' ->
+  let d1 := dict_set d (n_network_key N) (DInt ident) in
+  exists s name cls st e0 v0 e',
+    assoc "type" d1 = Some (DStr s) /\ In (name, cls) (n_names N emb) /\ str_is name s = true /\
+    lookup_struct (n_tm N) cls = Some st /\ new_instance N cls = Ok (VStruct cls e0) /\ create_core N emb ident d = Ok v0 /\
+    v' = VStruct cls e' /\ map fst e' = map fst e0 /\
+    (forall k dv, In (k, dv) d1 -> k <> "type" ->
+       exists f x old, member_of N cls k = Some f /\ ends_with k "_computed" = false /\ described_entry N cls k dv x /\
+                       assoc (f_name f) e0 = Some old /\
+                       (f_name f <> post_member N ->
+                        exists y, vget v' (f_name f) = Some y /\ arranged N autosort v0 st (f_name f) (encode_str (stored x old)) y)) /\
+    (forall n dflt, (forall k dv f, In (k, dv) d1 -> k <> "type" -> member_of N cls k = Some f -> f_name f <> n) ->
+       n <> post_member N -> assoc n e0 = Some dflt ->
+       exists y, vget v' n = Some y /\ arranged N autosort v0 st n (encode_str dflt) y).
+Proof. exact create_holds_values_composed. Qed.
+Print Assumptions create_holds_values_composed_partial.
+
+Example arranged_means : forall N autosort v0 st n y0 y, arranged N autosort v0 st n y0 y <->
+  if autosort then
+    (exists a l l', keyed_member st n a /\ y0 = VArr l /\ y = VArr l' /\ keyed_sorted N a l l')
+    \/ (visited_member N v0 st n /\ exists fuel, sort_value N fuel y0 = Ok y)
+    \/ ((forall a, ~ keyed_member st n a) /\ ~ visited_member N v0 st n /\ y = y0)
+  else y = y0.
+Proof. intros. reflexivity. Qed.
+
+(* ================= non-vacuity of the nested statements ================= *)
+(* NEM transfer with one mosaic: dictionaries four levels below the list *)
+Definition ex_nem_mosaics (inner : list (string * dval)) (last_key : string) (last : dval) : dval :=
+  DList [DDict [("mosaic", DDict [("mosaic_id", DDict [("namespace_id", DDict (("name", DBytes (of_string "nem")) :: inner));
+                                                       ("name", DBytes (of_string "xem"))]); (last_key, last)])]].
+Definition ex_nem_transfer : descriptor :=
+  [("type", DStr (of_string "transfer_transaction_v2")); ("amount", DInt 7); ("mosaics", ex_nem_mosaics [] "amount" (DInt 5))].
+
+(* nested_values_described / create_holds_values_nested_partial: the premises hold together on the shipped tables, and the created
+   objects hold the nested values (Symbol: two mosaics; NEM: namespace name four dictionaries down) *)
+Example nested_premises_nonvacuous :
+  (NoDup (map fst ex_descriptor) /\ (forall k dv, In (k, dv) ex_descriptor -> nodup_keys dv)
+   /\ match create_core sc_cfg false 152 ex_descriptor with
+      | Ok v => vget v "mosaics" = Some (VArr [VStruct "UnresolvedMosaic" [("mosaic_id", VInt 9); ("amount", VInt 2)];
+                                               VStruct "UnresolvedMosaic" [("mosaic_id", VInt 3); ("amount", VInt 1)]])
+      | _ => False
+      end)
+  /\ (NoDup (map fst ex_nem_transfer) /\ (forall k dv, In (k, dv) ex_nem_transfer -> nodup_keys dv)
+      /\ match create_core nc_cfg false 104 ex_nem_transfer with
+         | Ok v => vget v "mosaics" =
+                   Some (VArr [VStruct "SizePrefixedMosaic" [("mosaic", VStruct "Mosaic" [
+                                 ("mosaic_id", VStruct "MosaicId" [("namespace_id", VStruct "NamespaceId" [("name", VBytes (of_string "nem"))]);
+                                                                   ("name", VBytes (of_string "xem"))]);
+                                 ("amount", VInt 5)])]])
+         | _ => False
+         end)
+  /\ (exists x, nodup_keys (ex_nem_mosaics [] "amount" (DInt 5))
+                /\ parse nc_cfg parse_fuel (RArray (RStruct "SizePrefixedMosaic")) (ex_nem_mosaics [] "amount" (DInt 5)) = Ok x
+                /\ rule_for nc_cfg "TransferTransactionV2" "mosaics" = Some (RArray (RStruct "SizePrefixedMosaic"))).
+Proof.
+  split; [|split].
+  - split; [vm_compute; repeat constructor; cbn [In]; intuition discriminate|]. split; [|vm_compute; reflexivity].
+    intros k dv Hin. apply nodup_keysb_sound. vm_compute in Hin. repeat (destruct Hin as [Hin|Hin]; [inversion Hin; subst; vm_compute; reflexivity|]). destruct Hin.
+  - split; [vm_compute; repeat constructor; cbn [In]; intuition discriminate|]. split; [|vm_compute; reflexivity].
+    intros k dv Hin. apply nodup_keysb_sound. vm_compute in Hin. repeat (destruct Hin as [Hin|Hin]; [inversion Hin; subst; vm_compute; reflexivity|]). destruct Hin.
+  - eexists. split; [apply nodup_keysb_sound; vm_compute; reflexivity|]. split; vm_compute; reflexivity.
+Qed.
+Print Assumptions nested_premises_nonvacuous.
+
+(* nested_defect_rejected / create_rejects_nested / create_fails_on_failure_inside: concrete defects below the top level on the shipped
+   tables -- an out-of-range amount and a computed key three dictionaries down, an unknown key five levels down (NEM), a negative
+   amount in the second mosaic (Symbol), a dictionary where a list is expected -- each together with the top-level premises *)
+Example nested_rejections_nonvacuous :
+  let r_nem := RArray (RStruct "SizePrefixedMosaic") in
+  let r_sym := RArray (RStruct "UnresolvedMosaic") in
+  let bad_sym := DList [DDict [("mosaic_id", DInt 9); ("amount", DInt 2)]; DDict [("mosaic_id", DInt 3); ("amount", DInt (-1))]] in
+  (bad_value nc_cfg r_nem (ex_nem_mosaics [] "amount" (DInt (2 ^ 64)))
+   /\ bad_value nc_cfg r_nem (ex_nem_mosaics [] "amount_computed" (DInt 5))
+   /\ bad_value nc_cfg r_nem (ex_nem_mosaics [("bogus", DInt 1)] "amount" (DInt 5))
+   /\ bad_value sc_cfg r_sym bad_sym
+   /\ bad_value sc_cfg r_sym (DDict [("mosaic_id", DInt 9); ("amount", DInt 2)]))
+  /\ (let d := [("type", DStr (of_string "transfer_transaction_v2")); ("mosaics", ex_nem_mosaics [("bogus", DInt 1)] "amount" (DInt 5))] in
+      let d1 := dict_set d (n_network_key nc_cfg) (DInt 104) in
+      assoc "type" d1 = Some (DStr (of_string "transfer_transaction_v2"))
+      /\ class_of_type nc_cfg false (DStr (of_string "transfer_transaction_v2")) = Ok "TransferTransactionV2"
+      /\ In ("mosaics", ex_nem_mosaics [("bogus", DInt 1)] "amount" (DInt 5)) d1 /\ "mosaics" <> "type"
+      /\ rule_for nc_cfg "TransferTransactionV2" "mosaics" = Some r_nem
+      /\ inside nc_cfg r_nem (ex_nem_mosaics [("bogus", DInt 1)] "amount" (DInt 5))
+                (RStruct "NamespaceId") (DDict [("name", DBytes (of_string "nem")); ("bogus", DInt 1)])
+      /\ (forall fuel y, parse nc_cfg fuel (RStruct "NamespaceId") (DDict [("name", DBytes (of_string "nem")); ("bogus", DInt 1)]) <> Ok y))
+  /\ (rule_for sc_cfg "TransferTransactionV1" "mosaics" = Some r_sym
+      /\ class_of_type sc_cfg false (DStr (of_string "transfer_transaction_v1")) = Ok "TransferTransactionV1").
+Proof.
+  cbv zeta.
+  assert (Hbogus : bad_value nc_cfg (RStruct "NamespaceId") (DDict [("name", DBytes (of_string "nem")); ("bogus", DInt 1)])).
+  { eapply BvNonMember; [right; left; reflexivity|vm_compute; reflexivity]. }
+  split; [|split].
+  - split; [|split; [|split; [|split]]].
+    + eapply BvElem; [left; reflexivity|]. eapply BvMember; [left; reflexivity|vm_compute; reflexivity|].
+      eapply BvMember; [right; left; reflexivity|vm_compute; reflexivity|]. apply BvLeaf.
+      eapply BlRange; [vm_compute; reflexivity|vm_compute; auto 6|vm_compute; intros [_ H]; discriminate].
+    + eapply BvElem; [left; reflexivity|]. eapply BvMember; [left; reflexivity|vm_compute; reflexivity|].
+      eapply BvComputed; [right; left; reflexivity|vm_compute; reflexivity].
+    + eapply BvElem; [left; reflexivity|]. eapply BvMember; [left; reflexivity|vm_compute; reflexivity|].
+      eapply BvMember; [left; reflexivity|vm_compute; reflexivity|]. eapply BvMember; [left; reflexivity|vm_compute; reflexivity|]. exact Hbogus.
+    + eapply BvElem; [right; left; reflexivity|]. eapply BvMember; [right; left; reflexivity|vm_compute; reflexivity|]. apply BvLeaf.
+      eapply BlRange; [vm_compute; reflexivity|vm_compute; auto 6|vm_compute; intros [H _]; apply H; reflexivity].
+    + apply BvNotList. exact I.
+  - split; [vm_compute; reflexivity|]. split; [vm_compute; reflexivity|]. split; [vm_compute; auto 6|]. split; [discriminate|].
+    split; [vm_compute; reflexivity|]. split.
+    + eapply InElem; [left; reflexivity|]. eapply InMember; [left; reflexivity|vm_compute; reflexivity|].
+      eapply InMember; [left; reflexivity|vm_compute; reflexivity|]. eapply InMember; [left; reflexivity|vm_compute; reflexivity|]. apply InHere.
+    + exact (nested_defect_rejected nc_cfg _ _ Hbogus).
+  - split; vm_compute; reflexivity.
+Qed.
+Print Assumptions nested_rejections_nonvacuous.
+
+(* the fuel premises: both example descriptors are far less than parse_fuel deep (the NEM one is 5 deep), and the created object is
+   far less than type_fuel_d deep *)
+Example fuel_premises_nonvacuous :
+  (forall key dv, In (key, dv) ex_descriptor -> (ddepth dv < parse_fuel)%nat)
+  /\ (forall key dv, In (key, dv) ex_nem_transfer -> (ddepth dv < parse_fuel)%nat)
+  /\ ddepth (ex_nem_mosaics [] "amount" (DInt 5)) = 5%nat /\ (parse_fuel <= 1000)%nat
+  /\ create_core_fuel nc_cfg 6 false 104 ex_nem_transfer = create_core nc_cfg false 104 ex_nem_transfer
+  /\ (vdepth ex_created < type_fuel_d)%nat.
+Proof.
+  split; [|split; [|split; [|split; [|split]]]].
+  - intros key dv Hin. vm_compute in Hin. repeat (destruct Hin as [Hin|Hin]; [inversion Hin; subst; vm_compute; repeat constructor|]). destruct Hin.
+  - intros key dv Hin. vm_compute in Hin. repeat (destruct Hin as [Hin|Hin]; [inversion Hin; subst; vm_compute; repeat constructor|]). destruct Hin.
+  - vm_compute. reflexivity.
+  - vm_compute. repeat constructor.
+  - vm_compute. reflexivity.
+  - vm_compute. repeat constructor.
+Qed.
+
+(* autosort_every_depth: a NEM multisig transaction whose inner transaction (an SDK object, here built by the struct rule machinery)
+   carries its two modifications in descending order.  create succeeds; sort() visits the inner transaction (depth 1), its member
+   `modifications` is a keyed array, and it comes out in ascending order while autosort = false leaves it as given *)
+Definition ex_pk (first : Z) : bytes := first :: List.repeat 7 31.
+Definition ex_modification (kind : string) (first : Z) : dval :=
+  DDict [("modification", DDict [("modification_type", DStr (of_string kind)); ("cosignatory_public_key", DBytes (ex_pk first))])].
+Definition ex_inner : dval :=
+  match parse nc_cfg parse_fuel (RStruct "NonVerifiableMultisigAccountModificationTransactionV1")
+              (DDict [("modifications", DList [ex_modification "delete_cosignatory" 17; ex_modification "add_cosignatory" 0])]) with
+  | Ok x => x | _ => DInt 0 end.
+Definition ex_multisig : descriptor := [("type", DStr (of_string "multisig_transaction_v1")); ("inner_transaction", ex_inner)].
+Definition ex_modification_value (kind first : Z) : value :=
+  VStruct "SizePrefixedMultisigAccountModification"
+    [("modification", VStruct "MultisigAccountModification" [("modification_type", VInt kind); ("cosignatory_public_key", VBytes (ex_pk first))])].
+
+Example autosort_every_depth_nonvacuous :
+  match create_core nc_cfg false 104 ex_multisig, create nc_cfg false true 104 ex_multisig, create nc_cfg false false 104 ex_multisig with
+  | Ok v0, Ok v', Ok v'' =>
+    exists w w' s a, vget v0 "inner_transaction" = Some w /\ vget v' "inner_transaction" = Some w' /\ visits nc_cfg v0 v' w w'
+      /\ lookup_struct (n_tm nc_cfg) "NonVerifiableMultisigAccountModificationTransactionV1" = Some s /\ keyed_member s "modifications" a
+      /\ vget w "modifications" = Some (VArr [ex_modification_value 2 17; ex_modification_value 1 0])
+      /\ vget w' "modifications" = Some (VArr [ex_modification_value 1 0; ex_modification_value 2 17])
+      /\ vget v'' "inner_transaction" = Some w
+  | _, _, _ => False
+  end.
+Proof.
+  set (c0 := create_core nc_cfg false 104 ex_multisig). set (c1 := create nc_cfg false true 104 ex_multisig).
+  set (c2 := create nc_cfg false false 104 ex_multisig).
+  vm_compute in c0, c1, c2. subst c0 c1 c2. cbv iota beta.
+  eexists. eexists. eexists. eexists.
+  split; [vm_compute; reflexivity|]. split; [vm_compute; reflexivity|]. split.
+  { eapply VisMember with (n := "inner_transaction"); [vm_compute; reflexivity| |vm_compute; reflexivity|vm_compute; reflexivity|apply VisHere].
+    eexists. eexists. eexists. split; [vm_compute; reflexivity|]. split; [vm_compute; reflexivity|]. split; vm_compute; reflexivity. }
+  split; [vm_compute; reflexivity|]. split.
+  { eexists. eexists. split; [vm_compute; reflexivity|]. split; vm_compute; reflexivity. }
+  split; [vm_compute; reflexivity|]. split; vm_compute; reflexivity.
+Qed.
+Print Assumptions autosort_every_depth_nonvacuous.
+
+(* create_holds_values_composed_partial: its premises hold together for the Symbol transfer (autosort on: the two mosaics come out in
+   ascending order of their ids, `mosaics` is not the post member) and for the NEM multisig transaction (the visited inner object) *)
+Example create_composed_nonvacuous :
+  (NoDup (map fst ex_descriptor) /\ (forall k dv, In (k, dv) ex_descriptor -> nodup_keys dv)
+   /\ create sc_cfg false true 152 ex_descriptor = Ok ex_created /\ "mosaics" <> post_member sc_cfg
+   /\ vget ex_created "mosaics" = Some (VArr [VStruct "UnresolvedMosaic" [("mosaic_id", VInt 3); ("amount", VInt 1)];
+                                              VStruct "UnresolvedMosaic" [("mosaic_id", VInt 9); ("amount", VInt 2)]]))
+  /\ (NoDup (map fst ex_multisig) /\ (forall k dv, In (k, dv) ex_multisig -> nodup_keys dv)
+      /\ match create nc_cfg false true 104 ex_multisig with Ok _ => True | _ => False end /\ "inner_transaction" <> post_member nc_cfg).
+Proof.
+  split.
+  - split; [vm_compute; repeat constructor; cbn [In]; intuition discriminate|]. split; [|split; [vm_compute; reflexivity|split; [discriminate|vm_compute; reflexivity]]].
+    intros k dv Hin. apply nodup_keysb_sound. vm_compute in Hin. repeat (destruct Hin as [Hin|Hin]; [inversion Hin; subst; vm_compute; reflexivity|]). destruct Hin.
+  - split; [vm_compute; repeat constructor; cbn [In]; intuition discriminate|]. split; [|split; [vm_compute; exact I|discriminate]].
+    intros k dv Hin. destruct Hin as [Hin|[Hin|[]]]; inversion Hin; subst; constructor.
+Qed.
+Print Assumptions create_composed_nonvacuous.
